@@ -176,7 +176,7 @@ PROPS['C15'] = {
 PROPS['C09'] = {
     'title': 'Concurrent merges are never lost',
     'modules': ['ColumnVerif.Props.C09', 'ColumnVerif.Props.C09skel'],
-    'runs': [{'mode': 'sched'}, {'mode': 'store'}],
+    'runs': [{'mode': 'sched'}, {'mode': 'store'}, {'mode': 'stress'}],
     'skeleton': True,
     'trusted_base': CONC_TB,
     'assumptions': [
@@ -191,7 +191,7 @@ PROPS['C09'] = {
 PROPS['C10'] = {
     'title': 'A reader never sees a half-applied commit on a row',
     'modules': ['ColumnVerif.Props.C10', 'ColumnVerif.Props.C10skel'],
-    'runs': [{'mode': 'sched'}],
+    'runs': [{'mode': 'sched'}, {'mode': 'stress'}],
     'skeleton': True,
     'trusted_base': CONC_TB,
     'assumptions': [
